@@ -73,6 +73,11 @@ def placeholder_items():
           Variant("S5", "named", [Field("usize", "w"), Field("usize", "p"), Field("String", "bb")], [tos("{bb:>w$.p$}|{LIMIT:03}")]),
           Variant("S6", "named", [Field("u8", "a")], [tos("{a} of {LIMIT}")])]
     items.append(Item("E", sv))
+    nodata = Item("E", [Variant("U1", "unit"), Variant("T0", "tuple", [], [tos("after {LIMIT}{UNIT}")]), Variant("S0", "named", [], [tos("[{LIMIT:>5}]")]),
+                        Variant("U2", "unit", [], [tos("two")])], metas=[EM("cis")])
+    nodata.family = "no-data-variants"
+    nodata.extra_derives = ["IntoStaticStr"]      # the inherent into_str of IntoStaticStr must not become Display's shortcut
+    items.append(nodata)
     # tuple: every permutation using every positional field
     tys = ["u8", "String", "i32"]
     vs = []
@@ -123,7 +128,7 @@ def build_corpus(tier, rng):
             for sp in specs:
                 c.add_q(k, "display", [j, i] + sp, note="fixed")
     for it in placeholder_items():
-        k = c.add_def(it, family="placeholders", derives=["Display"])
+        k = c.add_def(it, family=getattr(it, "family", "placeholders"), derives=["Display"] + list(getattr(it, "extra_derives", [])))
         c.add_q(k, "struct", ["Display"], note="structure")
         vals = []
         for i, v in enumerate(it.variants):
